@@ -796,3 +796,20 @@ def pipe_internal_nodes_c02(ctx):
     interpolated between the pipe's junctions, PAMB computed from the interpolated height of the same node (shared with C09)"""
     from contracts.C09 import pipe_internal_nodes
     pipe_internal_nodes(ctx)
+
+
+@unit("C02", "ambient_pressure", functions=["pandapipes.component_models.component_toolbox:p_correction_height_air"], engine="E2")
+def ambient_pressure(ctx):
+    """the ambient pressure added to the gauge pressures of the momentum equation is the documented barometric
+    formula p_N (1 - 0.0065 h / 288.15)^5.255 at the node's height"""
+    ctx.assume("A1", "A3")
+    n = z3.Int("NH")
+    h = K.sym_arr("height", n, "f")
+    paths = T.run_paths(ctx, "pandapipes.component_models.component_toolbox:p_correction_height_air",
+                        lambda: ([K.sym_arr("height", n, "f")], {}))
+    ok = len(paths) == 1 and paths[0].exc is None and is_array(paths[0].result)
+    ctx.decided("returns-array", "cover", ok, witness=str([str(p.exc) for p in paths]))
+    if ok:
+        i = z3.Int("i!row")
+        ctx.ob("barometric-formula", "ensures", [n >= 1, i >= 0, i < n] + list(paths[0].facts),
+               K.eq_val(paths[0].result.f(i), SP.p_amb(h.f(i))))
